@@ -165,10 +165,15 @@ def generate_live(prop: str, seed: int, tier: str, index: int, *, templates=None
             script.append({"op": "sleep", "us": rng.randrange(0, 3_000_000)})
             script.append({"op": "restart"})
         actors.append({"id": "chaos", "kind": "player", "prng": 0, "script": script})
+    world = {"streams": streams}
+    if rng.random() < 0.25:
+        # one stream carries stored option defaults (its URLs omit values equal to them; every endpoint must apply
+        # them - and only to that stream)
+        world["defaults"] = {rng.choice(streams): rng.choice([{"depth": "30"}, {"depth": "40", "mup": "4"}])}
     return {
         "property": prop, "seed": seed, "index": index, "tier": tier, "hashseed": index % base.HASHSEEDS,
         "t0_us": t0, "sched_seed": rng.getrandbits(32),
-        "world": {"streams": streams},
+        "world": world,
         "actors": actors,
     }
 
